@@ -47,6 +47,45 @@ STR = ["quote.c", "str_rchr.c", "str_chr.c", "stralloc_opys.c", "stralloc_opyb.c
        "stralloc_cat.c", "stralloc_copy.c", "stralloc_pend.c", "byte_copy.c", "byte_rchr.c"]
 
 
+def parser_loops(repo):
+    """cbmc numbers the loops of a function in source order, inner loops before the loop that contains them.
+    token822_parse has two passes (count, then fill), each: for(i) { while(level) [comment], while(level) [quoted-string],
+    while(level) [domain-literal], do..while(atomok) [atom] }.  Fail loudly if that shape is gone."""
+    import vlib
+    with open(os.path.join(vlib.REPO, "token822.c"), encoding="latin-1") as f:
+        text = f.read()
+    m = re.search(r"^int token822_parse\(.*?^}", text, re.M | re.S)
+    if not m:
+        raise PlanError("token822.c: token822_parse not found")
+    body = m.group(0)
+    shape = re.findall(r"for \(i = 0;i < salen;\+\+i\)|while \(level\)|\bdo\b", body)
+    want = ["for (i = 0;i < salen;++i)", "while (level)", "while (level)", "while (level)", "do"] * 2
+    if shape != want:
+        raise PlanError("token822.c: loop structure of token822_parse changed (%r): revise harness/C17/plan.py header_unwind" % (shape,))
+    return {"comment": (0, 5), "quote": (1, 6), "literal": (2, 7), "atom": (3, 8), "outer": (4, 9)}
+
+
+def header_unwind(p):
+    """Per-loop bounds for header_roundtrip (each proved sufficient by its unwinding assertion)."""
+    import vlib
+    ids = parser_loops(vlib.REPO)
+    n = p["N"]
+    if p["QUOTED"]:     # To : "..." @ h   -> 5 tokens; one quoted-string of <= N payload characters
+        b = {"outer": 7, "quote": n + 3, "atom": 4, "comment": 2, "literal": 2}
+        ntok = 5
+    else:               # To : <atoms and dots, N bytes> @ h
+        b = {"outer": n + 6, "quote": 2, "atom": n + 3, "comment": 2, "literal": 2}
+        ntok = n + 4
+    u = {}
+    for role, (a, c) in ids.items():
+        u["token822_parse.%d" % a] = b[role]
+        u["token822_parse.%d" % c] = b[role]
+    u.update({"strlen": n + 4, "quote_need": n + 2, "doit": n + 2, "byte_copy": (2 * n + 4) // 4 + 2, "atomcheck": max(n, 2) + 2,
+              "token822_addrlist": ntok + 1, "token822_reverse": ntok // 2 + 2,
+              "token822_unquote": max(ntok, n) + 2})
+    return u
+
+
 def obligations(tier):
     ns = [0, 1, 2, 3, 4, 5] if tier == "quick" else [0, 1, 2, 3, 4, 5, 6, 7]
     return [
@@ -74,23 +113,54 @@ def obligations(tier):
             expect_witnesses=lambda p: ["empty_sender"] if p.get("EMPTY") else
                                        (["quoted"] + (["plain", "backslash", "cr", "eight_bit"] if p["N"] >= 1 else []))),
             Obl("header_roundtrip", "header_roundtrip.c",
-            repo=STR + ["token822.c"], lib=["arena_stralloc.c"],
+            progs=[Prog("token822.c", cut=["gotaddr"], link=True)],
+            repo=STR, lib=["harness/C17/arena_small.c"],
             sysrename=["malloc", "realloc"],
-            defines={"ARENA_SLOTS": 4},
-            grid=[{"N": n, "ARENA_CAP": 2 * n + 12} for n in ([0, 1, 2, 3, 4] if tier == "quick" else [0, 1, 2, 3, 4, 5])],
-            # header = "To:" + quoted (<= 2N+4) + LF <= 2N+8 bytes; every loop of the parser is bounded by that
-            unwind=lambda p: {"strlen": p["N"] + 4, "token822_parse": 2 * p["N"] + 9, "quote_need": p["N"] + 2, "doit": p["N"] + 2,
-                              "byte_copy": (2 * p["N"] + 4) // 4 + 2, "atomcheck": p["N"] + 2,
-                              "token822_addrlist": p["N"] + 6, "token822_unquote": p["N"] + 6, "token822_reverse": p["N"] + 6,
-                              "gotaddr": p["N"] + 6},
+            defines={"ARENA_SLOTS": 1},
+            grid=[{"N": n, "QUOTED": qd, "ARENA_CAP": 2 * n + 12}
+                  for n in ([0, 1, 2] if tier == "quick" else [0, 1, 2, 3, 4]) for qd in (1, 0) if (n, qd) not in ((0, 0), (4, 0))],
+            unwind=header_unwind,
             unwind_default=lambda p: 2 * p["N"] + 9,
-            backend="cadical", timeout=900,
+            flags=["--slice-formula"],     # measured: 5.3M -> 1.6M variables (output token list, padding, unused buffers)
+            backend="cadical", timeout=900 if tier == "quick" else 3000,
             functions=["quote.c:quote2", "quote.c:quote", "quote.c:quote_need", "quote.c:doit", "token822.c:token822_parse",
                        "token822.c:token822_addrlist", "token822.c:token822_unquote", "token822.c:token822_reverse"],
+            cuts=["gotaddr (static, token822.c) -> notes the address, appends its token count to the output list, empties the address list, "
+                  "returns 1; proved on the real function by obligation gotaddr_contract"],
             stubs=["stralloc_ready/readyplus: arena", "malloc/realloc: must not be reached (token arrays pre-sized)"],
-            assumes=["local part exactly N bytes, any values except NUL and LF; host fixed 'h'"],
+            assumes=["local part exactly N bytes, any values except NUL and LF; host fixed 'h'; header field without its final LF "
+                     "(white space to the parser)",
+                     "case split QUOTED=1/0 on what quote2 returned (quoted-string or not); both cases are queries of the grid"],
             outside=["local parts longer than the grid", "GEN_ALLOC growth arithmetic (C20 lemma)"],
-            claim="'To: ' ++ quote2(local@host) ++ LF parses (token822_parse, token822_addrlist) to exactly one address whose "
+            claim="'To:' ++ quote2(local@host) parses (token822_parse, token822_addrlist) to exactly one address whose "
                   "token822_unquote form is local@host",
-            expect_witnesses=lambda p: ["quoted"] + (["plain", "backslash", "cr", "eight_bit", "special"] if p["N"] >= 1 else [])),
+            expect_witnesses=lambda p: (["quoted"] + (["backslash", "cr", "eight_bit", "special"] if p["N"] >= 1 else []))
+                                       if p["QUOTED"] else ["plain"]),
+            Obl("gotaddr_contract", "gotaddr.c",
+            progs=[Prog("token822.c")],
+            sysrename=["malloc", "realloc"],
+            grid=[{"KA": ka, "KO": ko} for ka in (0, 1, 3) for ko in (0, 2)],
+            unwind_default=lambda p: p["KA"] + p["KO"] + 4,
+            backend="cadical", timeout=600,
+            functions=["token822.c:gotaddr", "token822.c:token822_readyplus"],
+            stubs=["malloc/realloc: must not be reached (token arrays pre-sized)"],
+            assumes=["address list of KA tokens, output list of KO tokens with room for the address; token contents symbolic"],
+            claim="gotaddr() calls the callback once with the address list; on 1 it appends the (rewritten) tokens to the output list in "
+                  "order, empties the address list and returns 1; otherwise returns 0",
+            expect_witnesses=["callback_refuses", "appended"]),
+            Obl("quote_rfc822", "quote_rfc822.c",
+            repo=STR, lib=["harness/C17/arena_small.c"],
+            defines={"ARENA_SLOTS": 2},
+            grid=[{"N": n, "ARENA_CAP": 2 * n + 8} for n in (range(0, 7) if tier == "quick" else range(0, 10))],
+            unwind=lambda p: {"strlen": p["N"] + 4, "quote_need": p["N"] + 2, "doit": p["N"] + 2, "byte_copy": (2 * p["N"] + 6) // 4 + 2,
+                              "str_rchr": (p["N"] + 2) // 4 + 2},
+            unwind_default=lambda p: 2 * p["N"] + 6,
+            backend="cadical", timeout=900,
+            functions=["quote.c:quote2", "quote.c:quote", "quote.c:quote_need", "quote.c:doit"],
+            stubs=["stralloc_ready/readyplus: arena"],
+            assumes=["local part exactly N bytes, any values except NUL and LF; host 'h'"],
+            outside=["local parts longer than the grid"],
+            claim="quote2(local@h) is local-part@h where the local part is either the original bytes forming an RFC 822 dot-atom, or one "
+                  "RFC 822 quoted-string (no unescaped quote, backslash or CR) whose meaning is exactly the original bytes",
+            expect_witnesses=lambda p: (["quoted_empty"] if p["N"] == 0 else ["unquoted", "quoted_special"] + (["quoted_dots"] if p["N"] >= 1 else []))),
     ]
